@@ -41,6 +41,9 @@ class UpdateExtractor(BaseExtractor):
                 continue
 
             if tgt_flag:
+                if segment.type == "keyword" and segment.raw_upper == "ONLY":
+                    # postgres UPDATE ONLY tab: the table comes next
+                    continue
                 if write_table := self.find_table(segment):
                     holder.add_write(write_table)
                 tgt_flag = False
